@@ -620,6 +620,9 @@ pub fn sweep(run: &mut Run) {
     let mut state = shard as u32;
     while state < 1 << 16 {
         let st = state as u16;
+        if state % 256 == shard as u32 % 256 {
+            run.heartbeat();
+        }
         let bulk_word = if st >= 1 << 8 { Some((st ^ 0x5A) as u8) } else { None };
         // P = 1: single legal split (cum,p) in {(0,1),(1,1)}
         for (cum, p) in [(0u128, 1u128), (1, 1)] {
